@@ -1,13 +1,26 @@
 #!/bin/sh
-# suite (hooks off) + the tests/*.zy corpus against /repo's working tree
+# the pinned suite (hooks off; every test of BASELINE.stable_pass must pass) +
+# the tests/*.zy corpus against /repo's working tree
 export GOFLAGS=-mod=mod GOPROXY=off
 cd /repo && go build ./zygo/ ./cmd/zygo/ || exit 1
-go test -vet=off -count=1 ./zygo/ 2>&1 | tail -1
+go test -json -vet=off -count=1 -timeout 25m ./... 2>&1 | python3 -c "
+import sys,json
+want=set(json.load(open('/root/.vp/BASELINE.json'))['stable_pass'])
+got=set(); failed=set()
+for l in sys.stdin:
+    try: d=json.loads(l)
+    except Exception: continue
+    if d.get('Test') and d['Action']=='pass': got.add(d['Package']+'::'+d['Test'])
+    if d.get('Test') and d['Action']=='fail': failed.add(d['Package']+'::'+d['Test'])
+miss=sorted(want-got)
+print('suite: want',len(want),'passed',len(want&got),'missing',miss[:10],'failed',sorted(failed)[:10])
+sys.exit(1 if miss or failed else 0)" || exit 1
 go build -o /verif/bin/zygo ./cmd/zygo || exit 1
 rm -rf /tmp/corp && mkdir -p /tmp/corp && cp -r /repo/tests /tmp/corp/ && cd /tmp/corp
 fails=0
 for f in tests/*.zy; do
   if ! timeout 20 /verif/bin/zygo -demo -exitonfail $f >/tmp/corp/out.txt 2>&1; then echo "FAIL $f"; tail -3 /tmp/corp/out.txt; fails=$((fails+1)); fi
 done
+cd /; rm -rf /tmp/corp
 echo "corpus fails=$fails"
 [ $fails -eq 0 ]
